@@ -4,5 +4,8 @@ set -e
 ROOT=$(cd "$(dirname "$0")/.." && pwd)
 cd "$ROOT/harness"
 if [ ! -f Cargo.lock ] || [ /repo/Cargo.lock -nt Cargo.lock ]; then cp /repo/Cargo.lock Cargo.lock; fi
-CARGO_NET_OFFLINE=true timeout 2400 cargo build --offline 2>&1 | tail -40
+# (the exit status of cargo decides: a build that fails must not leave the previous binary in use)
+LOG=$(mktemp "$ROOT/.build/cargo-build.XXXXXX.log" 2>/dev/null || echo "$ROOT/.build/cargo-build.log")
+mkdir -p "$ROOT/.build"
+if CARGO_NET_OFFLINE=true timeout 2400 cargo build --offline > "$LOG" 2>&1; then tail -5 "$LOG"; rm -f "$LOG"; else tail -60 "$LOG"; rm -f "$LOG"; exit 1; fi
 test -x "$ROOT/.build/target/debug/yv-harness"
